@@ -62,7 +62,7 @@ def s_tree(ws):
     cu = Curve.create(ws, name="C", vertices=np.arange(12.0).reshape(4, 3), parts=np.array([0, 0, 1, 1]))
     cu.add_data({"cc": {"association": "CELL", "values": np.array([0.5, 1.5])}})
     cu.add_data({"cv": {"values": np.array([0.5, 1.5, 2.5, 3.5])}})
-    g2.add_data({"gtext": {"association": "OBJECT", "values": "note on a group"}})
+    g2.add_comment("note on a group", "me")
 
 
 def s_classes(ws):
@@ -138,8 +138,7 @@ def s_surveys(ws):
     rx.add_data({"ch1": {"values": np.array([1.0, 2.0, 3.0, 4.0])}})
     cur = CurrentElectrode.create(ws, name="cur", vertices=v, parts=np.array([0, 0, 1, 1]))
     cur.add_default_ab_cell_id()
-    pot = PotentialElectrode.create(ws, name="pot", vertices=v + 1.0)
-    pot.cells = np.array([[0, 1], [2, 3]], dtype=np.uint32)
+    pot = PotentialElectrode.create(ws, name="pot", vertices=v + 1.0, cells=np.array([[0, 1], [2, 3]], dtype=np.uint32))
     pot.ab_cell_id = np.array([1, 2], dtype=np.int32)
     pot.current_electrodes = cur
     pot.add_data({"dcv": {"association": "CELL", "values": np.array([0.1, 0.2])}})
